@@ -14,6 +14,11 @@ import Ark.Model.Proto
     C10 mfde   FD <c|u> <y|n> <bytes>          => <de>;<consumed>
     C10 mfdefl FD <flagty> <bytes>             => <de>;<consumed>
     C10 mpde   CD <aff|proj> <c|u> <y|n> <bytes> => <de>;<consumed>
+    C10 pchk   CD <aff|proj> <P>                 => ok | err:invalid      (`Valid::check`)
+    C10 pbchk  CD <aff|proj> <P1;P2;…>           => ok | err:invalid      (`Valid::batch_check`, `_` = empty)
+  with FD's tower `_`, `2`, `3`, `3.2`, `2.3.2` for field lines; in a CD the tower is `_` or `2:<β>`
+  (coordinates in `Fp[u]/(u² − β)`), and `<h1>` is `0`/`1` (default subgroup test, `cofactor_is_one`) or
+  `g2:<X>:<neg>:<K0.c1>:<K1.c0>:<K1.c1>` (the test of `ark_test_curves::bls12_381::g2`).
 
   The verdicts use an independently written description of the format (`specDecode`, `encStrict`,
   `decConsistent`: one little-endian integer per coordinate, flag bits in the top bits of the last
